@@ -269,7 +269,7 @@ pub fn main(args: &Args) -> Report {
     let ctl = Ctl::new();
     ctl.install();
     let mut out = CaseOut::default();
-    let reps = if args.thorough() { 25 } else { 4 };
+    let reps = if args.thorough() { 80 } else { 4 };
     for r in 0..reps {
         for pre_compact in [false, true] {
             let pre = 2 + ((r as u64 + args.seed) % 5);
